@@ -237,6 +237,14 @@ def ensure_facts(root=None, jobs=16):
         sets = sorted(glob.glob(os.path.join(CACHE, 'facts', '*')), key=os.path.getmtime)
         for old in sets[:-6]:
             shutil.rmtree(old, ignore_errors=True)
+        # configured headers are kept per analysed root: the scratch copies of the self-validation runs leave one directory each
+        now = time.time()
+        for gd in glob.glob(os.path.join(CACHE, 'gen', '*')):
+            try:
+                if gd != gen and now - os.path.getmtime(gd) > 3600:
+                    shutil.rmtree(gd, ignore_errors=True)
+            except OSError:
+                pass
         return d, meta
 
 
